@@ -112,7 +112,9 @@ def _generate_slice(ns, node):
         else:
             sr = f"[{node.start}]"
     r, s = _generate_expression(ns, node.value)
-    return r + sr, s
+    if s and (sr == ""):
+        r = "$unsigned(" + r + ")" # A slice is unsigned, also when the 1-bit value it selects from is signed.
+    return r + sr, False
 
 # Print Cat ----------------------------------------------------------------------------------------
 
